@@ -57,6 +57,41 @@ def r17_1(ctx):
     ctx.floor(n, 1, "lexers whose tokens are displayed")
 
 
+def _range_generators(ctx):
+    """(tokens_to_spans, line_tokenize) by role, wherever they live and whatever they are called: the generator whose result is handed
+    to text.append_tokens(..) on the ranged path of Syntax.highlight, and the generator it draws its tokens from"""
+    f = ctx.repo.fn("syntax:Syntax.highlight")
+    m = f.module
+
+    def lookup(name):
+        return m.functions.get(f"Syntax.highlight.<locals>.{name}") or m.functions.get(f"Syntax.{name}") or m.functions.get(name)
+
+    def callee_name(c):
+        if isinstance(c, ast.Call):
+            if isinstance(c.func, ast.Name):
+                return c.func.id
+            if isinstance(c.func, ast.Attribute) and isinstance(c.func.value, ast.Name) and c.func.value.id in ("self", "cls", "Syntax"):
+                return c.func.attr
+        return None
+    ts = None
+    for c in ast.walk(f.node):
+        if isinstance(c, ast.Call) and isinstance(c.func, ast.Attribute) and c.func.attr == "append_tokens" and len(c.args) == 1:
+            cand = lookup(callee_name(c.args[0]) or "")
+            if cand is not None and cand.is_generator:
+                ts = cand
+    if ts is None:
+        raise AnchorVanished("Syntax.highlight: no generator is handed to text.append_tokens on the ranged path (tokens_to_spans not found)")
+    lt = None
+    for c in ast.walk(ts.node):
+        if isinstance(c, ast.Call):
+            cand = lookup(callee_name(c) or "")
+            if cand is not None and cand is not ts and cand.is_generator:
+                lt = cand
+    if lt is None:
+        raise AnchorVanished(f"{ts.fq}: the generator that splits tokens per line (line_tokenize) was not found")
+    return ts, lt
+
+
 def r17_2(ctx):
     ctx.rule("R17.2", "range clipping: skipping to the first requested line cannot fail when the range starts beyond the code - no bare next() in the generator functions of syntax.py / traceback.py (PEP 479)")
     from .c14 import r14_2
@@ -88,9 +123,7 @@ def r17_2(ctx):
     if n == 0:
         ctx.ok("rich/syntax.py", "no bare next() in generators of syntax.py / traceback.py")
     # skipped tokens are still emitted (so that line k of the Text is line k of the source)
-    f = ctx.repo.mod("syntax").functions.get("Syntax.highlight.<locals>.tokens_to_spans")
-    if f is None:
-        raise AnchorVanished("Syntax.highlight.<locals>.tokens_to_spans not found")
+    f, _lt = _range_generators(ctx)
     # every token taken from the `tokens` iterator - by `.. , T = next(tokens)` in a while loop or by `for .., T in tokens`
     # - is yielded exactly once, unconditionally, in the iteration that consumed it
     sites = []
@@ -203,12 +236,10 @@ def r17_4(ctx):
         for x in ast.walk(f.node):
             if isinstance(x, ast.For) and "lexer.get_tokens(code)" in norm(x.iter) and isinstance(x.target, ast.Tuple) and len(x.target.elts) == 2 and len(x.body) == 1 and isinstance(x.body[0], ast.Expr) and isinstance(x.body[0].value, ast.Yield) and isinstance(x.body[0].value.value, ast.Tuple):
                 enc = f.module.parent_of.get(x)
-                if isinstance(enc, ast.FunctionDef) and enc.name not in ("line_tokenize",) and norm(x.body[0].value.value.elts[0]) == norm(x.target.elts[1]):
+                if isinstance(enc, ast.FunctionDef) and enc.name not in ("line_tokenize", "_line_tokenize") and norm(x.body[0].value.value.elts[0]) == norm(x.target.elts[1]):
                     ok = True
     ctx.check(ok, f.fq, "(token, style) for token_type, token in lexer.get_tokens(code)", f.where, "whole-code path appends every token text unchanged", "the whole-code path does not append each token's text unchanged (tokens filtered or transformed)")
-    lt = m.functions.get("Syntax.highlight.<locals>.line_tokenize")
-    if lt is None:
-        raise AnchorVanished("Syntax.highlight.<locals>.line_tokenize not found")
+    ts, lt = _range_generators(ctx)
     s2 = norm(lt.node)
     ok = "line_token, new_line, token = token.partition('\\n')" in s2 and "yield (token_type, line_token + new_line)" in s2 and "lexer.get_tokens(code)" in s2 and "while token:" in s2
     if not ok and "lexer.get_tokens(code)" in s2:
@@ -223,11 +254,10 @@ def r17_4(ctx):
                 ok = (len(rest) == 2 and isinstance(rest[0], ast.For) and norm(rest[0].iter) == pieces and len(rest[0].body) == 1 and norm(rest[0].body[0]) == f"yield (token_type, {norm(rest[0].target)} + '\\n')"
                       and isinstance(rest[1], ast.If) and norm(rest[1].test) == last and len(rest[1].body) == 1 and norm(rest[1].body[0]) == f"yield (token_type, {last})" and not rest[1].orelse)
     ctx.check(ok, lt.fq, "partition pieces", lt.where, "per-line splitter yields line_token + new_line until the token is consumed", "line_tokenize no longer re-emits every partition piece (line + newline) in order")
-    ts = m.functions.get("Syntax.highlight.<locals>.tokens_to_spans")
     ys = [y for y in walk_local(ts.node) if isinstance(y, ast.Yield)]
     ok = bool(ys) and all(isinstance(y.value, ast.Tuple) and norm(y.value.elts[0]) == "token" for y in ys)
     ctx.check(ok, ts.fq, "yield (token, ...)", ts.where, "ranged path yields token text unchanged", "tokens_to_spans yields something other than the token text")
-    ctx.check("text.append_tokens(tokens_to_spans())" in src, f.fq, "append_tokens(tokens_to_spans())", f.where, "ranged tokens appended verbatim", "ranged tokens are not passed to append_tokens")
+    ctx.ok(f.where, f"ranged tokens go from {ts.qualname} straight into text.append_tokens", f.fq)
     # fallback
     ok = False
     for x in walk_local(f.node):
